@@ -22,6 +22,21 @@ def eval_integral(
     return ret.numpy(), ret_grad
 
 
+def _used_chains(amp):
+    """the chain selection that is active now (None if amp has no decay group)"""
+    decay_group = getattr(amp, "decay_group", None)
+    if decay_group is None or not hasattr(amp, "set_used_chains"):
+        return None
+    return list(decay_group.chains_idx)
+
+
+def _restore_used_chains(amp, chains, all_res):
+    if chains is None:
+        amp.set_used_res(all_res)
+    else:
+        amp.set_used_chains(chains)
+
+
 class FitFractions:
     def __init__(self, amp, res):
         self.amp = amp
@@ -73,27 +88,31 @@ class FitFractions:
         self.cached_int_total += int_mc
         self.cached_grad_total += g_int_mc
         cahced_res = self.amp.used_res
+        cached_chains = _used_chains(self.amp)
         amp_tmp = self.amp
-        for i in range(len(self.res)):
-            for j in range(i, -1, -1):
-                if i == j:
-                    name = str(self.res[i])
-                    amp_tmp.set_used_res([self.res[i]])
-                else:
-                    name = (str(self.res[i]), str(self.res[j]))
-                    amp_tmp.set_used_res([self.res[i], self.res[j]])
-                int_tmp, g_int_tmp = eval_integral(
-                    amp_tmp,
-                    mcdata,
-                    var=self.var,
-                    weight=weight,
-                    args=args,
-                    kwargs=kwargs,
-                )
-                self.cached_int[name] = self.cached_int[name] + int_tmp
-                self.cached_grad[name] = self.cached_grad[name] + g_int_tmp
-
-        self.amp.set_used_res(cahced_res)
+        try:
+            for i in range(len(self.res)):
+                for j in range(i, -1, -1):
+                    if i == j:
+                        name = str(self.res[i])
+                        amp_tmp.set_used_res([self.res[i]])
+                    else:
+                        name = (str(self.res[i]), str(self.res[j]))
+                        amp_tmp.set_used_res([self.res[i], self.res[j]])
+                    int_tmp, g_int_tmp = eval_integral(
+                        amp_tmp,
+                        mcdata,
+                        var=self.var,
+                        weight=weight,
+                        args=args,
+                        kwargs=kwargs,
+                    )
+                    self.cached_int[name] = self.cached_int[name] + int_tmp
+                    self.cached_grad[name] = (
+                        self.cached_grad[name] + g_int_tmp
+                    )
+        finally:
+            _restore_used_chains(self.amp, cached_chains, cahced_res)
 
     def get_frac_grad(self, sum_diag=True):
         n = len(self.res)
@@ -201,60 +220,63 @@ def cal_fitfractions(amp, mcdata, res=None, batch=None, args=(), kwargs=None):
     var = amp.trainable_variables
     # allvar = [i.name for i in var]
     cahced_res = amp.used_res
+    cached_chains = _used_chains(amp)
     if res is None:
         res = list(amp.res)
     n_res = len(res)
     fitFrac = {}
     err_fitFrac = {}
     g_fitFrac = [None] * n_res
-    amp.set_used_res(res)
-    weight = 1.0
-    if batch is not None:
-        weight = mcdata.get("weight", 1.0)
-        mcdata = list(data_split(mcdata, batch))
-        if not isinstance(weight, float):
-            weight = list(data_split(weight, batch))
-    int_mc, g_int_mc = sum_gradient(
-        amp, mcdata, var=var, weight=weight, args=args, kwargs=kwargs
-    )
-    for i in range(n_res):
-        for j in range(i, -1, -1):
-            amp_tmp = amp
-            if i == j:
-                name = "{}".format(res[i])
-                amp_tmp.set_used_res([res[i]])
-            else:
-                name = (str(res[i]), str(res[j]))
-                amp_tmp.set_used_res([res[i], res[j]])
-            int_tmp, g_int_tmp = sum_gradient(
-                amp_tmp,
-                mcdata,
-                var=var,
-                weight=weight,
-                args=args,
-                kwargs=kwargs,
-            )
-            if i == j:
-                fitFrac[name] = int_tmp / int_mc
-                gij = (
-                    g_int_tmp / int_mc - (int_tmp / int_mc) * g_int_mc / int_mc
+    try:
+        amp.set_used_res(res)
+        weight = 1.0
+        if batch is not None:
+            weight = mcdata.get("weight", 1.0)
+            mcdata = list(data_split(mcdata, batch))
+            if not isinstance(weight, float):
+                weight = list(data_split(weight, batch))
+        int_mc, g_int_mc = sum_gradient(
+            amp, mcdata, var=var, weight=weight, args=args, kwargs=kwargs
+        )
+        for i in range(n_res):
+            for j in range(i, -1, -1):
+                amp_tmp = amp
+                if i == j:
+                    name = "{}".format(res[i])
+                    amp_tmp.set_used_res([res[i]])
+                else:
+                    name = (str(res[i]), str(res[j]))
+                    amp_tmp.set_used_res([res[i], res[j]])
+                int_tmp, g_int_tmp = sum_gradient(
+                    amp_tmp,
+                    mcdata,
+                    var=var,
+                    weight=weight,
+                    args=args,
+                    kwargs=kwargs,
                 )
-                g_fitFrac[i] = gij
-            else:
-                fitFrac[name] = (
-                    (int_tmp / int_mc)
-                    - fitFrac["{}".format(res[i])]
-                    - fitFrac["{}".format(res[j])]
-                )
-                gij = (
-                    g_int_tmp / int_mc
-                    - (int_tmp / int_mc) * g_int_mc / int_mc
-                    - g_fitFrac[i]
-                    - g_fitFrac[j]
-                )
-            # print(name,gij.tolist())
-            err_fitFrac[name] = gij
-    amp.set_used_res(cahced_res)
+                if i == j:
+                    fitFrac[name] = int_tmp / int_mc
+                    gij = (
+                        g_int_tmp / int_mc - (int_tmp / int_mc) * g_int_mc / int_mc
+                    )
+                    g_fitFrac[i] = gij
+                else:
+                    fitFrac[name] = (
+                        (int_tmp / int_mc)
+                        - fitFrac["{}".format(res[i])]
+                        - fitFrac["{}".format(res[j])]
+                    )
+                    gij = (
+                        g_int_tmp / int_mc
+                        - (int_tmp / int_mc) * g_int_mc / int_mc
+                        - g_fitFrac[i]
+                        - g_fitFrac[j]
+                    )
+                # print(name,gij.tolist())
+                err_fitFrac[name] = gij
+    finally:
+        _restore_used_chains(amp, cached_chains, cahced_res)
     return fitFrac, err_fitFrac
 
 
@@ -268,46 +290,49 @@ def cal_fitfractions_no_grad(
     var = amp.trainable_variables
     # allvar = [i.name for i in var]
     cahced_res = amp.used_res
+    cached_chains = _used_chains(amp)
     if res is None:
         res = list(amp.res)
     n_res = len(res)
     fitFrac = {}
-    amp.set_used_res(res)
-    weight = 1.0
-    if batch is not None:
-        weight = mcdata.get("weight", 1.0)
-        mcdata = list(data_split(mcdata, batch))
-        if not isinstance(weight, float):
-            weight = list(data_split(weight, batch))
-    int_mc = sum_no_gradient(
-        amp, mcdata, var=var, weight=weight, args=args, kwargs=kwargs
-    )
-    for i in range(n_res):
-        for j in range(i, -1, -1):
-            amp_tmp = amp
-            if i == j:
-                name = "{}".format(res[i])
-                amp_tmp.set_used_res([res[i]])
-            else:
-                name = "{}x{}".format(res[i], res[j])
-                amp_tmp.set_used_res([res[i], res[j]])
-            int_tmp = sum_no_gradient(
-                amp_tmp,
-                mcdata,
-                var=var,
-                weight=weight,
-                args=args,
-                kwargs=kwargs,
-            )
-            if i == j:
-                fitFrac[name] = int_tmp / int_mc
-            else:
-                fitFrac[name] = (
-                    (int_tmp / int_mc)
-                    - fitFrac["{}".format(res[i])]
-                    - fitFrac["{}".format(res[j])]
+    try:
+        amp.set_used_res(res)
+        weight = 1.0
+        if batch is not None:
+            weight = mcdata.get("weight", 1.0)
+            mcdata = list(data_split(mcdata, batch))
+            if not isinstance(weight, float):
+                weight = list(data_split(weight, batch))
+        int_mc = sum_no_gradient(
+            amp, mcdata, var=var, weight=weight, args=args, kwargs=kwargs
+        )
+        for i in range(n_res):
+            for j in range(i, -1, -1):
+                amp_tmp = amp
+                if i == j:
+                    name = "{}".format(res[i])
+                    amp_tmp.set_used_res([res[i]])
+                else:
+                    name = "{}x{}".format(res[i], res[j])
+                    amp_tmp.set_used_res([res[i], res[j]])
+                int_tmp = sum_no_gradient(
+                    amp_tmp,
+                    mcdata,
+                    var=var,
+                    weight=weight,
+                    args=args,
+                    kwargs=kwargs,
                 )
-    amp.set_used_res(cahced_res)
+                if i == j:
+                    fitFrac[name] = int_tmp / int_mc
+                else:
+                    fitFrac[name] = (
+                        (int_tmp / int_mc)
+                        - fitFrac["{}".format(res[i])]
+                        - fitFrac["{}".format(res[j])]
+                    )
+    finally:
+        _restore_used_chains(amp, cached_chains, cahced_res)
     return fitFrac
 
 
